@@ -96,6 +96,10 @@ def queries(tier):
                         group="~c14/dialer_connect.c#STARTAIO",
                         params={"call_site": "nni_dialer_start_aio", "user_aio_state": nm, "connect_result": "any nng_err"}))
     qs += tcp_dialer_queries(tier)
+    from props import C14
+    for q in C14.tran_dialer_queries(tier):
+        q.group = "~" + q.group + "#c02"
+        qs.append(q)
     return qs
 
 
